@@ -356,6 +356,27 @@ def _observe(world: World, m: MetaModel, hz: dict[str, bool], step_kind: str, ob
             d = _cmp(got, [[x] for x in sorted(m.dbs)]) if not isinstance(got, dict) else got
             if d:
                 return v_(f"information_schema.databases/{step_kind}", "information_schema.databases lists exactly the user databases", d)
+            # --- another database's information_schema read through a database-qualified name from this session
+            for other in sorted(m.dbs):
+                if other == db:
+                    continue
+                ot = sorted(t for t in m.tables if t[0] == other)
+                ov = sorted(v for v in m.views if v[0] == other)
+                got = q(cur, f"SELECT table_catalog, table_schema, table_name FROM {other}.information_schema.views WHERE table_schema NOT IN ('information_schema', 'main')")
+                d = got if isinstance(got, dict) else _cmp(got, [list(v) for v in ov])
+                if d:
+                    return v_(f"cross-database/information_schema.views/{step_kind}", "another database's information_schema.views, read through a qualified name, lists exactly that database's views", {"reader_database": db, "read": other, **(d if "unexpected" in d else {"error": d})})
+                got = q(cur, f"SELECT table_catalog, table_schema, table_name, table_type FROM {other}.information_schema.tables WHERE table_catalog = '{other}' AND table_schema NOT IN ('information_schema', 'main')")
+                if not isinstance(got, dict):
+                    d = _cmp([r for r in got if not str(r[2]).startswith("_fs_")], [[t[0], t[1], t[2], "BASE TABLE"] for t in ot] + [[v[0], v[1], v[2], "VIEW"] for v in ov])
+                    if d:
+                        return v_(f"cross-database/information_schema.tables/{step_kind}", "another database's information_schema.tables, read through a qualified name, lists exactly that database's objects", {"reader_database": db, "read": other, **d})
+                got = q(cur, f"SELECT table_schema, table_name, column_name, data_type FROM {other}.information_schema.columns WHERE table_catalog = '{other}' AND table_schema NOT IN ('information_schema', 'main')")
+                if not isinstance(got, dict):
+                    want_c = [[t[1], t[2], c, TYPES[ty][0]] for t in ot for c, ty, nn in m.tables[t]["cols"]]
+                    d = _cmp([r for r in got if (other, r[0], r[1]) in m.tables], want_c)
+                    if d:
+                        return v_(f"cross-database/information_schema.columns/{step_kind}", "another database's information_schema.columns, read through a qualified name, describes exactly that database's columns", {"reader_database": db, "read": other, **d})
             # --- SHOW in database / schema scope
             for show, rows_want in (("TABLES", [[t[2], "TABLE", t[0], t[1]] for t in dbt]), ("OBJECTS", [[t[2], "TABLE", t[0], t[1]] for t in dbt] + [[v[2], "VIEW", v[0], v[1]] for v in dbv])):
                 got = q(cur, f"SHOW {show} IN DATABASE {db}")
